@@ -230,7 +230,7 @@ type pairOps struct {
 
 var (
 	tops  []typeOps
-	pairs [NB][NB]pairOps
+	pairs [2 * NB][2 * NB]pairOps // built-in pairs, and the pairs that involve one of the NamedIO types
 )
 
 // Alloc calls signal.Alloc[T].
@@ -412,6 +412,107 @@ func fromUnsigned[S constraints.Unsigned](s int) {
 	regConv(s, Float64, "UnsignedAsFloat", signal.UnsignedAsFloat[S, float64])
 }
 
+// NamedIO lists the named element types for which reads, writes and conversions are
+// registered too (against every built-in type, in both directions).
+var NamedIO []int
+
+// NamedPairs returns those extra (source, destination) pairs.
+func NamedPairs() [][2]int {
+	var r [][2]int
+	for _, n := range NamedIO {
+		for b := 0; b < NB; b++ {
+			r = append(r, [2]int{n, b}, [2]int{b, n})
+		}
+	}
+	return r
+}
+
+func ioWithBuiltins[N signal.SignalTypes](n int) {
+	regIO[N, int8](n, Int8)
+	regIO[N, int16](n, Int16)
+	regIO[N, int32](n, Int32)
+	regIO[N, int64](n, Int64)
+	regIO[N, int](n, Int)
+	regIO[N, uint8](n, Uint8)
+	regIO[N, uint16](n, Uint16)
+	regIO[N, uint32](n, Uint32)
+	regIO[N, uint64](n, Uint64)
+	regIO[N, uint](n, Uint)
+	regIO[N, uintptr](n, Uintptr)
+	regIO[N, float32](n, Float32)
+	regIO[N, float64](n, Float64)
+	regIO[int8, N](Int8, n)
+	regIO[int16, N](Int16, n)
+	regIO[int32, N](Int32, n)
+	regIO[int64, N](Int64, n)
+	regIO[int, N](Int, n)
+	regIO[uint8, N](Uint8, n)
+	regIO[uint16, N](Uint16, n)
+	regIO[uint32, N](Uint32, n)
+	regIO[uint64, N](Uint64, n)
+	regIO[uint, N](Uint, n)
+	regIO[uintptr, N](Uintptr, n)
+	regIO[float32, N](Float32, n)
+	regIO[float64, N](Float64, n)
+}
+
+func toNamedFloat[D constraints.Float](d int) {
+	regConv(Int8, d, "SignedAsFloat", signal.SignedAsFloat[int8, D])
+	regConv(Int16, d, "SignedAsFloat", signal.SignedAsFloat[int16, D])
+	regConv(Int32, d, "SignedAsFloat", signal.SignedAsFloat[int32, D])
+	regConv(Int64, d, "SignedAsFloat", signal.SignedAsFloat[int64, D])
+	regConv(Int, d, "SignedAsFloat", signal.SignedAsFloat[int, D])
+	regConv(Uint8, d, "UnsignedAsFloat", signal.UnsignedAsFloat[uint8, D])
+	regConv(Uint16, d, "UnsignedAsFloat", signal.UnsignedAsFloat[uint16, D])
+	regConv(Uint32, d, "UnsignedAsFloat", signal.UnsignedAsFloat[uint32, D])
+	regConv(Uint64, d, "UnsignedAsFloat", signal.UnsignedAsFloat[uint64, D])
+	regConv(Uint, d, "UnsignedAsFloat", signal.UnsignedAsFloat[uint, D])
+	regConv(Uintptr, d, "UnsignedAsFloat", signal.UnsignedAsFloat[uintptr, D])
+	regConv(Float32, d, "FloatAsFloat", signal.FloatAsFloat[float32, D])
+	regConv(Float64, d, "FloatAsFloat", signal.FloatAsFloat[float64, D])
+}
+
+func toNamedSigned[D constraints.Signed](d int) {
+	regConv(Int8, d, "SignedAsSigned", signal.SignedAsSigned[int8, D])
+	regConv(Int16, d, "SignedAsSigned", signal.SignedAsSigned[int16, D])
+	regConv(Int32, d, "SignedAsSigned", signal.SignedAsSigned[int32, D])
+	regConv(Int64, d, "SignedAsSigned", signal.SignedAsSigned[int64, D])
+	regConv(Int, d, "SignedAsSigned", signal.SignedAsSigned[int, D])
+	regConv(Uint8, d, "UnsignedAsSigned", signal.UnsignedAsSigned[uint8, D])
+	regConv(Uint16, d, "UnsignedAsSigned", signal.UnsignedAsSigned[uint16, D])
+	regConv(Uint32, d, "UnsignedAsSigned", signal.UnsignedAsSigned[uint32, D])
+	regConv(Uint64, d, "UnsignedAsSigned", signal.UnsignedAsSigned[uint64, D])
+	regConv(Uint, d, "UnsignedAsSigned", signal.UnsignedAsSigned[uint, D])
+	regConv(Uintptr, d, "UnsignedAsSigned", signal.UnsignedAsSigned[uintptr, D])
+	regConv(Float32, d, "FloatAsSigned", signal.FloatAsSigned[float32, D])
+	regConv(Float64, d, "FloatAsSigned", signal.FloatAsSigned[float64, D])
+}
+
+func toNamedUnsigned[D constraints.Unsigned](d int) {
+	regConv(Int8, d, "SignedAsUnsigned", signal.SignedAsUnsigned[int8, D])
+	regConv(Int16, d, "SignedAsUnsigned", signal.SignedAsUnsigned[int16, D])
+	regConv(Int32, d, "SignedAsUnsigned", signal.SignedAsUnsigned[int32, D])
+	regConv(Int64, d, "SignedAsUnsigned", signal.SignedAsUnsigned[int64, D])
+	regConv(Int, d, "SignedAsUnsigned", signal.SignedAsUnsigned[int, D])
+	regConv(Uint8, d, "UnsignedAsUnsigned", signal.UnsignedAsUnsigned[uint8, D])
+	regConv(Uint16, d, "UnsignedAsUnsigned", signal.UnsignedAsUnsigned[uint16, D])
+	regConv(Uint32, d, "UnsignedAsUnsigned", signal.UnsignedAsUnsigned[uint32, D])
+	regConv(Uint64, d, "UnsignedAsUnsigned", signal.UnsignedAsUnsigned[uint64, D])
+	regConv(Uint, d, "UnsignedAsUnsigned", signal.UnsignedAsUnsigned[uint, D])
+	regConv(Uintptr, d, "UnsignedAsUnsigned", signal.UnsignedAsUnsigned[uintptr, D])
+	regConv(Float32, d, "FloatAsUnsigned", signal.FloatAsUnsigned[float32, D])
+	regConv(Float64, d, "FloatAsUnsigned", signal.FloatAsUnsigned[float64, D])
+}
+
+func typeID(name string) int {
+	for _, t := range Types {
+		if t.Name == name {
+			return t.ID
+		}
+	}
+	panic("no type " + name)
+}
+
 // Named element types (C13).
 type (
 	MyInt8    int8
@@ -472,6 +573,22 @@ func init() {
 	fromUnsigned[uintptr](Uintptr)
 	fromFloat[float32](Float32)
 	fromFloat[float64](Float64)
+
+	// four named types take part in reads, writes and conversions as well
+	n16, nu8, nf32, nf64 := typeID("MyInt16"), typeID("MyUint8"), typeID("MyFloat32"), typeID("MyFloat64")
+	NamedIO = []int{n16, nu8, nf32, nf64}
+	ioWithBuiltins[MyInt16](n16)
+	ioWithBuiltins[MyUint8](nu8)
+	ioWithBuiltins[MyFloat32](nf32)
+	ioWithBuiltins[MyFloat64](nf64)
+	fromSigned[MyInt16](n16)
+	fromUnsigned[MyUint8](nu8)
+	fromFloat[MyFloat32](nf32)
+	fromFloat[MyFloat64](nf64)
+	toNamedSigned[MyInt16](n16)
+	toNamedUnsigned[MyUint8](nu8)
+	toNamedFloat[MyFloat32](nf32)
+	toNamedFloat[MyFloat64](nf64)
 }
 
 // Try runs f and reports whether it panicked.
